@@ -170,9 +170,11 @@ def set_line(tx: dict, kw: dict, idmap: Dict[str, int], exc: Optional[str]) -> O
 def parse_entry(entry: str, tx_id: str, idmap: Dict[str, int], seq: Optional[str] = None):
     """(ids, sect, w2f, problem) of a header entry `TX|id|…|[SECT-n]|[W2F-n]|[ORFk]|index`"""
     parts = entry.split('|')
-    dup = sorted({p for p in parts[1:-1] if parts[1:-1].count(p) > 1})
+    # (record ids can legitimately repeat: a merged pair is written as its individual ids next to
+    # other records) — a generated SECT-/W2F- event is named once
+    dup = sorted({p for p in parts[1:-1] if parts[1:-1].count(p) > 1 and p.startswith(('SECT-', 'W2F-'))})
     if dup:
-        return None, False, False, f'the entry names {dup} more than once'
+        return None, False, False, f'the entry names the event(s) {dup} more than once'
     if seq is not None:
         for p in parts[1:-1]:
             if re.match(r'^W2F-\d+$', p):
